@@ -187,7 +187,7 @@ def respOp (cfg : RespCfg) (ds : List Bytes) : String × Option RespState :=
   else (b ++ " #r=" ++ showReserves rs, st)
 
 /-- the text after `generate`: the bytes, or the error of the dependency, or `FOLD` where the model does not answer
-    (a non-ASCII line that needs folding; a line limit below 2, where the dependency's `limit - 2` traps or wraps
+    (a line that is not valid UTF-8 — no Rust `String` is; a line limit below 2, where the dependency's `limit - 2` traps or wraps
     depending on the build profile: known finding KF1) -/
 def genText (r : GenRes) : Except String Bytes :=
   match r with
